@@ -182,7 +182,7 @@ impl Property for C02 {
     }
 
     fn budget(tier: Tier) -> u64 {
-        tier.pick(40_000, 800_000)
+        tier.pick(40_000, 22_000)
     }
 
     fn rule() -> &'static str {
